@@ -21,26 +21,27 @@ from harness.core import sp
 
 PID = "C19"
 RULE = ("cases are dataclass modules rendered from the layout grammar: per class a decorator (with/without arguments), "
-        "optional class docstring (google/numpy-less 'Args:' section, either triple-quote style), then per field a block "
-        "[comment lines][blank lines] definition [inline comment][blank lines][docstring below, one-line or multi-line, "
-        "either quote style][blank lines], with an optional explicit help= (simple_parsing.field(help=) or "
-        "metadata=dict(help=)); every text is a distinct marker 'mkNNNq …'. Streams: exhaustive subsets of the five "
-        "documentation positions for one field and for two prefix-related fields (a, ab), random multi-field classes with "
-        "permuted prefix-related names, trailing comments on the class line / decorator line, inheritance chains of length "
-        "2-3 that override / re-declare fields or document an inherited field only in the subclass docstring, default values that are "
-        "string literals containing '#', and synthetic definition lines for the inline-comment extraction. Histories: for "
-        "inheritance chains (plus an unrelated class declaring the same field names) the classes are looked up in ONE process "
-        "in several orders (most-derived first, base first twice, back and forth, interleaved, shuffled) through "
-        "get_attribute_docstring and through the parser's help, and every answer must be the documented one. Each module is "
-        "checked by three ops: the real get_attribute_docstring, the "
-        "real argparse action help / --help text, and the layout rendering. Non-trivial = at least two fields, or an "
-        "inheritance chain, with at least one documentation position filled; distinct by canonical JSON.")
+        "optional class docstring ('Args:' section, either triple-quote style), then per field a block [comment lines]"
+        "[blank lines] definition [inline comment][blank lines][docstring below, one-line or multi-line, either quote "
+        "style][blank lines], with an optional explicit help= (simple_parsing.field(help=) or metadata=dict(help=)); every "
+        "text carries a distinct marker 'mkNNNq …'. Streams: exhaustive subsets of the five documentation positions for one "
+        "field and for two prefix-related fields (a, ab), random multi-field classes with permuted prefix-related names "
+        "(int/str/float/bool/Optional, leading required fields), texts with everyday punctuation (':', quotes, '=', '#', "
+        "`name: type` words) in inline comments / comments above / one-line docstrings, trailing comments on the class / "
+        "decorator line, a trailing method, inheritance chains of length 2-3 that override / re-declare fields or document "
+        "an inherited field only in the subclass docstring, a make_dataclass base without source, default values that are "
+        "string literals containing '#', synthetic definition lines for the inline-comment extraction. Histories: the "
+        "classes of a chain (plus an unrelated class declaring the same field names) are looked up in ONE process in "
+        "several orders through get_attribute_docstring and through the parser's help; every answer must be the documented "
+        "one. Five small streams reproduce the open findings. Non-trivial = at least two fields, or an inheritance chain, "
+        "with at least one documentation position filled; distinct by canonical JSON.")
 ASSUMPTIONS = [
+    "CPython 3.12: `cls.__doc__` is the raw docstring (3.13+ dedents it, so there an indented class docstring is never "
+    "found in the source — the situation of finding C19-classdoc-escape for every class)",
     "inspect.getsource returns the class's source lines (decorator line to last statement) — observed, passed to the model",
     "docstring_parser's parameter list for the class docstring — observed, passed to the model",
-    "str.strip/isidentifier/splitlines are modelled on ASCII; generated sources are printable ASCII with \\n line ends",
-    "linear inheritance chains (the lru_cache'd per-class result is mutated in place by the MRO merge; with diamond "
-    "hierarchies the answer can depend on call history, which is outside this property's quantifier)",
+    "str.strip/isidentifier/splitlines are modelled on ASCII; generated sources are printable ASCII with \\n line ends, "
+    "4-space indentation, top-level classes",
 ]
 TRUSTED = ["CPython inspect.getsource / linecache / importlib", "docstring_parser"]
 EXHAUSTIVE = {"quick": False, "thorough": False}
@@ -51,7 +52,8 @@ POSITIONS = ["help", "below", "above", "inline", "cls"]
 NAMES = ["a", "ab", "abc", "a_b", "a1", "b", "ba", "val", "value", "value_2", "x", "xy", "lr", "lr_decay", "_p", "_pq"]
 DECORATORS = ["@dataclass", "@dataclass()", "@dataclass(eq=True)", "@dataclass(eq=True, repr=True)",
               "@dataclass(order=False, unsafe_hash=False)"]
-TYPES = [("int", ["0", "1", "7", "-3"]), ("str", ['"s"', "'t'", '"u v"']), ("float", ["1.5", "0.0"])]
+TYPES = [("int", ["0", "1", "7", "-3"]), ("str", ['"s"', "'t'", '"u v"']), ("float", ["1.5", "0.0"]),
+         ("bool", ["True", "False"]), ("Optional[int]", ["None", "3"])]
 TEMP = "<__TEMP__>"
 MARK = re.compile(r"mk\d{3}q")
 
@@ -126,11 +128,31 @@ def rand_positions(rng):
     return {k for k in POSITIONS if rng.random() < (0.25 if k == "help" else 0.45)}
 
 
+def make_required(rng, blocks):
+    """the first fields of a root class may be required (no default: no "=" on the line, no temporary help token)"""
+    k = rng.choice([0, 0, 1, 2])
+    for b in blocks[:k]:
+        b["default"] = None
+    return blocks
+
+
+def dynamic_base_case(rng):
+    """the root of the chain is built with make_dataclass: inspect.getsource fails for it (docstring.py:115-124)"""
+    mk = Mk()
+    base = {"name": "C0", "base": None, "dynamic": True, "clsdoc": None, "decorator": "", "hdr_gap": 0, "hdr_comment": None,
+            "dec_comment": None, "blocks": [dict(mk_block(rng, mk, n, set()), gap3=0) for n in rng.sample(NAMES, 2)]}
+    names = [base["blocks"][0]["name"]] + [n for n in rng.sample(NAMES, 2) if n not in [b["name"] for b in base["blocks"]]]
+    subs = [rand_positions(rng) for _ in names]
+    blocks = [mk_block(rng, mk, n, s - {"cls"}) for n, s in zip(names, subs)]
+    c1 = mk_class(rng, mk, "C1", "C0", blocks, [n for n, s in zip(names, subs) if "cls" in s] + [base["blocks"][1]["name"]])
+    return {"stream": "dynamic-base", "classes": [base, c1], "target": "C1"}
+
+
 def random_class_case(rng):
     mk = Mk()
     names = rng.sample(NAMES, rng.choice([2, 3, 3, 4, 5, 6]))
     subs = [rand_positions(rng) for _ in names]
-    blocks = [mk_block(rng, mk, n, s - {"cls"}) for n, s in zip(names, subs)]
+    blocks = make_required(rng, [mk_block(rng, mk, n, s - {"cls"}) for n, s in zip(names, subs)])
     cls_fields = [n for n, s in zip(names, subs) if "cls" in s]
     rng.shuffle(cls_fields)
     return {"stream": "layout", "classes": [mk_class(rng, mk, "C0", None, blocks, cls_fields,
@@ -156,8 +178,8 @@ def chain_case(rng):
         classes.append(mk_class(rng, mk, f"C{d}", f"C{d-1}" if d else None, blocks, cls_fields,
                                 summary=rng.random() < 0.3))
         have += [n for n in names if n not in have]
-    return {"stream": "chain", "classes": classes, "target": f"C{rng.randrange(max(0, depth - 2), depth)}"
-            if rng.random() < 0.2 else f"C{depth-1}"}
+    return {"stream": "chain", "classes": classes, "target": f"C{rng.randrange(0, depth)}"
+            if rng.random() < 0.5 else f"C{depth-1}"}
 
 
 def hash_default_case(rng):
@@ -189,6 +211,106 @@ def header_comment_case(rng):
     c0 = mk_class(rng, mk, "C0", None, [b0, b1], [], summary=False)
     c0["hdr_comment"] = c0["hdr_comment"] or mk("header", "C0")
     return {"stream": "layout", "classes": [c0], "target": "C0"}
+
+
+PUNCT = [": it's = \"x\"", " (see: lr)", " = 3", ": b: int = 1", " don't", ' "quoted" word', " # hash", " a: b"]
+
+
+def enrich(rng, spec):
+    """everyday punctuation in the texts: ':', quotes, '=', '#', words that look like `name: type` — in the positions
+    where the line-oriented extractor must not care (inline comment, comment above, one-line docstring)"""
+    for c in spec["classes"]:
+        for b in c["blocks"]:
+            if b["inline"] is not None and rng.random() < 0.7:
+                b["inline"] += rng.choice(PUNCT)
+            if b["above"] and rng.random() < 0.7:
+                i = rng.randrange(len(b["above"]))
+                b["above"][i] += rng.choice([p for p in PUNCT if "#" not in p])
+            bl = b["below"]
+            if bl and not bl["multi"] and rng.random() < 0.7:
+                ok = [p for p in PUNCT if bl["q"][0] not in p and "#" not in p]
+                bl["lines"][0] += rng.choice(ok)
+    spec["rich_text"] = True
+    return spec
+
+
+def trailer_case(rng):
+    """a method after the fields (docstring, plain body): not a field's documentation"""
+    spec = random_class_case(rng) if rng.random() < 0.5 else chain_case(rng)
+    mk = Mk()
+    mk.n = 700
+    for c in spec["classes"]:
+        if rng.random() < 0.7:
+            c["trailer"] = {"doc": mk("method", c["name"]), "local": None, "marker": None}
+    spec["stream"] = "trailer"
+    return spec
+
+
+# ---- streams of the recorded (open) findings: each is known to fail, kept small
+
+
+def finding_classdoc_escape(rng):
+    """the class docstring contains an escape sequence: `cls.__doc__ not in source`, so it is not removed"""
+    mk = Mk()
+    names = rng.choice([["a", "ab"], ["val", "value", "x"], ["lr", "b"]])
+    subs = [rand_positions(rng) | {"cls"} for _ in names]
+    blocks = [mk_block(rng, mk, n, s - {"cls"}) for n, s in zip(names, subs)]
+    c0 = mk_class(rng, mk, "C0", None, blocks, names, summary=True)
+    c0["clsdoc"]["escape"] = True
+    return {"stream": "finding:classdoc-escape", "classes": [c0], "target": "C0"}
+
+
+def finding_docstring_colon(rng):
+    """a line `<field>: text` inside the multi-line docstring of an EARLIER field of the same class"""
+    mk = Mk()
+    first, later = rng.choice([("a", "b"), ("lr", "lr_decay"), ("x", "val")])
+    b0 = mk_block(rng, mk, first, rng.choice([{"below"}, {"below", "inline"}, {"below", "above"}]))
+    b0["below"] = {"q": rng.choice(['"""', "\'\'\'"]), "multi": True,
+                   "lines": [rng.choice(["", mk("below", first)]), mk("below", first), f"{later}: {mk('below', first)}"]}
+    b1 = mk_block(rng, mk, later, rng.choice([{"inline"}, {"above"}, {"inline", "above"}, set()]))
+    b1["below"] = None
+    return {"stream": "finding:docstring-colon", "classes": [mk_class(rng, mk, "C0", None, [b0, b1], [])], "target": "C0"}
+
+
+def finding_multiline_header(rng):
+    """a comment inside a class header that spans several lines"""
+    mk = Mk()
+    b0 = mk_block(rng, mk, "a", rng.choice([set(), {"inline"}]))
+    c0 = mk_class(rng, mk, "C0", None, [b0], [], summary=False)
+    b1 = mk_block(rng, mk, "x", rng.choice([set(), {"above"}, {"inline"}]))
+    b2 = mk_block(rng, mk, "xy", rand_positions(rng) - {"cls"})
+    c1 = mk_class(rng, mk, "C1", "C0", [b1, b2], [], summary=False)
+    c1["hdr_multiline"] = mk("header", "C1")
+    c1["hdr_comment"] = c1["dec_comment"] = None
+    return {"stream": "finding:multiline-header", "classes": [c0, c1], "target": "C1"}
+
+
+def finding_method_local(rng):
+    """an annotated local variable of a method, named like an INHERITED field"""
+    mk = Mk()
+    b0 = mk_block(rng, mk, "total", rng.choice([set(), {"above"}, {"below"}]))
+    b0["inline"] = None
+    b1 = mk_block(rng, mk, "other", rand_positions(rng) - {"cls"})
+    c0 = mk_class(rng, mk, "C0", None, [b0, b1], [])
+    b2 = mk_block(rng, mk, "y", rand_positions(rng) - {"cls"})
+    c1 = mk_class(rng, mk, "C1", "C0", [b2], [])
+    c1["trailer"] = {"doc": mk("method", "C1"), "local": "total", "marker": mk("local", "total")}
+    return {"stream": "finding:method-local", "classes": [c0, c1], "target": "C1"}
+
+
+def finding_diamond_history(rng):
+    """diamond A <- B, A <- C, D(B, C): looking up B first changes what D answers afterwards"""
+    mk = Mk()
+    a = mk_class(rng, mk, "A0", None, [mk_block(rng, mk, "f", {"inline"})], [])
+    b = mk_class(rng, mk, "B1", "A0", [mk_block(rng, mk, "f", rng.choice([{"below"}, {"above"}, set()]))], [])
+    c = mk_class(rng, mk, "C1", "A0", [mk_block(rng, mk, "f", {"inline"})], [])
+    d = mk_class(rng, mk, "D2", "B1, C1", [mk_block(rng, mk, "g", set())], [])
+    a["mro"], b["mro"], c["mro"], d["mro"] = ["A0"], ["B1", "A0"], ["C1", "A0"], ["D2", "B1", "C1", "A0"]
+    for k in (a, b, c, d):
+        k["hdr_comment"] = k["dec_comment"] = None
+    kind = rng.choice(["scan", "help"])
+    return {"stream": "finding:diamond-history", "order": "first-base-then-diamond", "classes": [a, b, c, d], "target": "D2",
+            "queries": [["B1", kind], ["D2", kind]]}
 
 
 def history_cases(rng):
@@ -286,6 +408,12 @@ def gen(rng, tier):
         specs.append(random_class_case(rng))
     for _ in range(150 if quick else 3000):
         specs.append(chain_case(rng))
+    for _ in range(60 if quick else 800):
+        specs.append(enrich(rng, random_class_case(rng) if rng.random() < 0.6 else chain_case(rng)))
+    for _ in range(30 if quick else 300):
+        specs.append(trailer_case(rng))
+    for _ in range(15 if quick else 150):
+        specs.append(dynamic_base_case(rng))
     for _ in range(20 if quick else 300):
         specs.append(clsdoc_inherited_case(rng))
         specs.append(header_comment_case(rng))
@@ -299,6 +427,13 @@ def gen(rng, tier):
     for _ in range(60 if quick else 400):
         for spec in history_cases(rng):
             yield {"op": "doc.history", "case": spec}
+    # (d'') streams of the open findings
+    for _ in range(3 if quick else 20):
+        for f in (finding_classdoc_escape, finding_docstring_colon, finding_multiline_header, finding_method_local):
+            spec = f(rng)
+            yield {"op": "doc.scan", "case": spec}
+            yield {"op": "doc.help", "case": spec}
+        yield {"op": "doc.history", "case": finding_diamond_history(rng)}
     # (e) the inline-comment extraction on synthetic definition lines (strings with '#', brackets, fallbacks)
     for t in INLINE_TEMPLATES:
         for cm in ("", "  # mk900q inline x", "#mk901q tight", "  #  mk902q # twice  "):
@@ -320,12 +455,16 @@ def default_expr(b):
     h = b.get("help")
     if not h:
         return b["default"]
+    if b["default"] is None:
+        return f'field(help="{h["text"]}")' if h["how"] == "custom" else f'dfield(metadata=dict(help="{h["text"]}"))'
     if h["how"] == "custom":
         return f'field(default={b["default"]}, help="{h["text"]}")'
     return f'dfield(default={b["default"]}, metadata=dict(help="{h["text"]}"))'
 
 
 def block_tail(b):
+    if b["default"] is None and not b.get("help"):
+        return f' {b["ann"]}'                            # a required field: no "=" on the definition line
     return f' {b["ann"]} = {default_expr(b)}'
 
 
@@ -351,32 +490,54 @@ def render_block(b):
 
 
 def render_class(c):
+    if c.get("dynamic"):
+        flds = ", ".join(f'("{b["name"]}", {b["ann"]}, dfield(default={b["default"]}))' for b in c["blocks"])
+        return [f'{c["name"]} = make_dataclass("{c["name"]}", [{flds}])'], 1
     out = [c["decorator"] + (f'  # {c["dec_comment"]}' if c.get("dec_comment") else "")]
-    head = f'class {c["name"]}({c["base"]}):' if c["base"] else f'class {c["name"]}:'
-    if c.get("hdr_comment"):
-        head += f'  # {c["hdr_comment"]}'
-    out.append(head)
+    if c.get("hdr_multiline"):
+        # class C1(
+        #     C0,  # <comment inside the header>
+        # ):
+        out.append(f'class {c["name"]}(')
+        out.append(f'{IND}{c["base"] or "object"},  # {c["hdr_multiline"]}')
+        out.append("):" + (f'  # {c["hdr_comment"]}' if c.get("hdr_comment") else ""))
+    else:
+        head = f'class {c["name"]}({c["base"]}):' if c["base"] else f'class {c["name"]}:'
+        if c.get("hdr_comment"):
+            head += f'  # {c["hdr_comment"]}'
+        out.append(head)
     cd = c["clsdoc"]
     if cd:
         q = cd["q"]
+        esc = "\\twith an escape" if cd.get("escape") else ""      # backslash-t in the SOURCE: __doc__ has a real tab
         if cd["entries"]:
-            out.append(f'{IND}{q}{cd["summary"]}')
+            out.append(f'{IND}{q}{cd["summary"]}{esc}')
             out.append("")
             out.append(f"{IND}Args:")
             for f, m in cd["entries"]:
                 out.append(f"{IND}{IND}{f}: {m}")
             out.append(f"{IND}{q}")
         else:
-            out.append(f'{IND}{q}{cd["summary"]}{q}')
+            out.append(f'{IND}{q}{cd["summary"]}{esc}{q}')
     out += [""] * c["hdr_gap"]
     n_header = len(out)
     for b in c["blocks"]:
         out += render_block(b)
+    tr = c.get("trailer")
+    if tr:
+        # a method after the fields, with a docstring and (optionally) an annotated local variable
+        out += ["", f"{IND}def run(self):", f'{IND}{IND}"""{tr["doc"]}"""']
+        if tr.get("local"):
+            out.append(f'{IND}{IND}{tr["local"]}: int = 0  # {tr["marker"]}')
+            out.append(f'{IND}{IND}return {tr["local"]}')
+        else:
+            out.append(f"{IND}{IND}return 0")
     return out, n_header
 
 
 def render_module(spec):
-    out = ["from dataclasses import dataclass, field as dfield", "from simple_parsing import field", "", ""]
+    out = ["from dataclasses import dataclass, field as dfield, make_dataclass", "from typing import Optional",
+           "from simple_parsing import field", "", ""]
     for c in spec["classes"]:
         lines, _ = render_class(c)
         out += lines + ["", ""]
@@ -446,7 +607,11 @@ def _mro_info(cls):
         if d:
             for p in dp_parse(d).params:
                 params.append({"name": p.arg_name, "desc": p.description or ""})
-        info.append({"source": inspect.getsource(k), "doc": k.__doc__, "params": params})
+        try:
+            source = inspect.getsource(k)
+        except (TypeError, OSError):                     # no source file (make_dataclass, exec): what the code catches
+            source = None
+        info.append({"name": k.__name__, "source": source, "doc": k.__doc__, "params": params})
     return info
 
 
@@ -487,6 +652,10 @@ def _observe(cls, op, with_mro=True):
     if True:
         names = [f.name for f in dataclasses.fields(cls)]
         obs = {"names": names}
+        # the explicit help= in effect, read off the real dataclass Field objects (fed to the model; the oracle works
+        # from the layout description instead)
+        obs["explicit"] = {f.name: {"meta": f.metadata.get("help"),
+                                    "custom": (f.metadata.get("custom_args") or {}).get("help")} for f in dataclasses.fields(cls)}
         if with_mro:
             obs["mro"] = _mro_info(cls)
         if op in ("doc.scan", "doc.layout"):
@@ -524,6 +693,9 @@ def _observe(cls, op, with_mro=True):
             for a in parser._actions:
                 if a.dest.startswith("cfg."):
                     h = a.help
+                    suffix = " (default: %(default)s)"              # appended by BooleanOptionalAction (C12/C16's business)
+                    if isinstance(h, str) and h.endswith(suffix) and type(a).__name__ == "BooleanOptionalAction":
+                        h = h[: -len(suffix)]
                     helps[a.dest[4:]] = None if (h is None or h == TEMP) else h
                 elif isinstance(a.help, str):
                     others.append(a.help)
@@ -547,18 +719,19 @@ def _subcases(case, obs):
 def model_case(case, obs):
     op, c = case["op"], case["case"]
     if op == "doc.history":
-        return {"queries": [dict(model_case(sub, a), kind=kind) for sub, a, kind in _subcases(case, obs)]}
+        classes, queries = {}, []
+        for sub, a, kind in _subcases(case, obs):
+            for k in a["mro"]:
+                classes.setdefault(k["name"], k)
+            m = model_case(sub, a)
+            queries.append(dict({k: v for k, v in m.items() if k != "mro"}, kind=kind, mro=[k["name"] for k in a["mro"]]))
+        return {"classes": list(classes.values()), "queries": queries}
     if op in ("doc.line", "doc.inline"):
         return c
     if op == "doc.scan":
         return {"mro": obs["mro"], "names": obs["names"]}
     if op == "doc.help":
-        eff = effective_blocks(c)
-        fields = []
-        for n in obs["names"]:
-            h = (eff.get(n) or {}).get("help")
-            fields.append({"name": n, "custom": h["text"] if h and h["how"] == "custom" else None,
-                           "meta": h["text"] if h and h["how"] == "meta" else None})
+        fields = [{"name": n, "custom": obs["explicit"][n]["custom"], "meta": obs["explicit"][n]["meta"]} for n in obs["names"]]
         return {"mro": obs["mro"], "fields": fields}
     if op == "doc.layout":
         cl = c["classes"][0]
@@ -593,6 +766,8 @@ def project(case, obs):
 def chain_of(spec):
     """classes from the target up to the root (nearest first)"""
     by = {c["name"]: c for c in spec["classes"]}
+    if by[spec["target"]].get("mro"):
+        return [by[n] for n in by[spec["target"]]["mro"]]
     out, cur = [], by[spec["target"]]
     while cur:
         out.append(cur)
@@ -620,6 +795,8 @@ def all_field_names(spec):
 
 def provided(c, name, kind):
     """marker lines class `c` provides for `name` at position `kind` ([] = does not provide it)"""
+    if c.get("dynamic"):
+        return []
     if kind == "cls":
         cd = c["clsdoc"]
         hits = [m for f, m in (cd["entries"] if cd else []) if f == name]
@@ -661,24 +838,32 @@ def norm(text):
     return [l.strip() for l in str(text).splitlines() if l.strip()]
 
 
+def mid(text):
+    m = MARK.search(text or "")
+    return m.group(0) if m else None
+
+
 def owner_of(spec):
-    """marker id -> field name it documents (header / summary markers -> None)"""
+    """marker id -> field name it documents (header / summary / method markers -> None)"""
     own = {}
     for c in spec["classes"]:
         for b in c["blocks"]:
             for m in b["above"] + ([b["inline"]] if b["inline"] is not None else []) + (b["below"]["lines"] if b["below"] else []):
-                if m:
-                    own[m[:6]] = b["name"]
+                if mid(m):
+                    own[mid(m)] = b["name"]
             if b.get("help"):
-                own[b["help"]["text"][:6]] = b["name"]
+                own[mid(b["help"]["text"])] = b["name"]
         if c["clsdoc"]:
-            own[c["clsdoc"]["summary"][:6]] = None
+            own[mid(c["clsdoc"]["summary"])] = None
             for f, m in c["clsdoc"]["entries"]:
-                own[m[:6]] = f
-        if c.get("hdr_comment"):
-            own[c["hdr_comment"][:6]] = None
-        if c.get("dec_comment"):
-            own[c["dec_comment"][:6]] = None
+                own[mid(m)] = f
+        for key in ("hdr_comment", "dec_comment", "hdr_multiline"):
+            if c.get(key):
+                own[mid(c[key])] = None
+        if c.get("trailer"):
+            own[mid(c["trailer"]["doc"])] = None
+            if c["trailer"].get("marker"):
+                own[mid(c["trailer"]["marker"])] = None
     return own
 
 
@@ -749,7 +934,7 @@ def oracle(case, obs):
         for n in names:
             exp = expected_help(spec, n)
             check(n, "help", obs["help"].get(n), exp)
-            shown |= {m[:6] for m in exp}
+            shown |= {mid(m) for m in exp if mid(m)}
             # FieldWrapper.help agrees with the action unless the help= went through add_argument's own kwargs
             b = effective_blocks(spec)[n]
             if not (b.get("help") and b["help"]["how"] == "custom"):
@@ -805,7 +990,30 @@ def tags(case, obs):
     t.append(f"stream:{spec['stream']}")
     t.append(f"classes:{len(spec['classes'])}")
     t.append(f"fields:{min(6, sum(len(c['blocks']) for c in spec['classes']))}")
+    declared = [b["name"] for c in spec["classes"] for b in c["blocks"]]
+    if len(declared) != len(set(declared)):
+        t.append("field-redeclared")
+    if spec.get("rich_text"):
+        t.append("rich-text")
     for c in spec["classes"]:
+        ns = [b["name"] for b in c["blocks"]]
+        if any(x != y and (x.startswith(y) or y.startswith(x)) for x, y in zip(ns, ns[1:])):
+            t.append("prefix-pair-adjacent")
+        if c.get("dynamic"):
+            t.append("no-source-class")
+        if c.get("trailer"):
+            t.append("trailing-method")
+        t.append(f"hdr_gap:{c['hdr_gap']}")
+        for b in c["blocks"]:
+            if b["default"] is None:
+                t.append("required-field")
+            if b["below"] and b["below"]["multi"] and b["below"]["lines"][0] == "":
+                t.append("opening-quotes-alone")
+            t.append("ann:" + b["ann"].split("[")[0])
+            if len(spec["classes"]) == 1 and len(c["blocks"]) <= 2:
+                pos = "".join(k[0] for k, v in (("help", b.get("help")), ("below", b["below"]), ("above", b["above"]),
+                                                 ("inline", b["inline"] is not None)) if v)
+                t.append("subset:" + (pos or "-"))
         if c.get("hdr_comment") or c.get("dec_comment"):
             t.append("header-comment")
         if c["clsdoc"] and any(f not in [b["name"] for b in c["blocks"]] for f, _ in c["clsdoc"]["entries"]):
@@ -896,26 +1104,154 @@ def neighbours(case, rng):
 
 
 # ------------------------------------------------------------------------------------------------
-# open findings: none (the three findings this check recorded are repaired; their replays are regression corpus)
+# open findings: narrow signatures = structure of the case (which class / field / position is concerned) + the observed
+# wrong text (it must be exactly what the recorded defect produces)
 
-FINDINGS = {}
+CLAUSES = ("nearest-provider", "no-leak", "no-invented-text", "precedence")
+
+
+def _spec(case):
+    spec = case.get("case")
+    return spec if isinstance(spec, dict) and "classes" in spec else None
+
+
+def _src_lines(c):
+    """stripped source lines of a class, also without a leading '#' / surrounding quotes (what a mis-read line can yield)"""
+    out = set()
+    for l in render_class(c)[0]:
+        l = l.strip()
+        if l:
+            out |= {l, l.lstrip("#").strip(), l.strip("\"'").strip(), l.replace("\\t", "\t")}
+            if "#" in l:
+                out.add(l.split("#", 1)[1].strip())
+            if ":" in l:
+                out.add(l.split(":", 1)[1].strip())               # `name: text` entry of the class docstring
+    return out
+
+
+def _sub(case, fail):
+    """(spec with the right target, fail) — for doc.history the class of the failing look-up"""
+    spec = _spec(case)
+    if spec is None:
+        return None
+    if case.get("op") == "doc.history":
+        if "cls" not in fail:
+            return None
+        return dict(spec, target=fail["cls"])
+    return spec
+
+
+def _classdoc_escape_sig(case, obs, fail):
+    spec = _sub(case, fail)
+    if spec is None or fail.get("clause") not in CLAUSES:
+        return False
+    for c in chain_of(spec):
+        if c["clsdoc"] and c["clsdoc"].get("escape") and any(b["name"] == fail.get("field") for b in c["blocks"]):
+            return all(g in _src_lines(c) for g in fail.get("got", []))
+    return False
+
+
+def _docstring_colon_sig(case, obs, fail):
+    spec = _sub(case, fail)
+    if spec is None or fail.get("clause") not in CLAUSES:
+        return False
+    f = fail.get("field")
+    for c in chain_of(spec):
+        for i, b in enumerate(c["blocks"]):
+            if b["below"] and b["below"]["multi"] and any(l.startswith(f"{f}:") for l in b["below"]["lines"][1:]):
+                own = [j for j, x in enumerate(c["blocks"]) if x["name"] == f]
+                if not own or own[0] > i:                       # the docstring line comes before the field's own definition
+                    return all(g in _src_lines(c) for g in fail.get("got", []))
+    return False
+
+
+def _multiline_header_sig(case, obs, fail):
+    spec = _sub(case, fail)
+    if spec is None or fail.get("clause") != "no-leak" or fail.get("kind") not in ("above", "help"):
+        return False
+    for c in chain_of(spec):
+        if c.get("hdr_multiline") and not c["clsdoc"] and c["blocks"] and c["blocks"][0]["name"] == fail.get("field"):
+            hdr = [c["hdr_multiline"]] + ([c["hdr_comment"]] if c.get("hdr_comment") else [])
+            return fail.get("foreign") == sorted(mid(h) for h in hdr) and fail.get("got") == hdr + list(c["blocks"][0]["above"])
+    return False
+
+
+def _method_local_sig(case, obs, fail):
+    spec = _sub(case, fail)
+    if spec is None or fail.get("clause") != "no-leak" or fail.get("kind") not in ("inline", "help"):
+        return False
+    for c in chain_of(spec):
+        tr = c.get("trailer")
+        if tr and tr.get("local") == fail.get("field") and not any(b["name"] == tr["local"] for b in c["blocks"]):
+            return fail.get("foreign") == [mid(tr["marker"])] and fail.get("got") == [tr["marker"]]
+    return False
+
+
+def _diamond_history_sig(case, obs, fail):
+    spec = _spec(case)
+    if spec is None or case.get("op") != "doc.history" or "query" not in fail or fail.get("clause") not in CLAUSES:
+        return False
+    by = {c["name"]: c for c in spec["classes"]}
+    cls = by[fail["cls"]]
+    if not cls.get("mro") or "," not in (cls["base"] or ""):
+        return False
+    for earlier, _ in spec["queries"][: fail["query"]]:
+        e = by[earlier]
+        if earlier != cls["name"] and e.get("mro") and "," in (e["base"] or "") and cls["name"] in e["mro"]:
+            # the failing class served as the accumulator of an earlier look-up of the diamond class: its cached
+            # record now holds the diamond class's answer
+            f = fail["field"]
+            has = [n for n in e["mro"] if any(b["name"] == f for b in by[n]["blocks"]) or provided(by[n], f, "cls")]
+            if has and has[0] == cls["name"]:
+                e_spec = dict(spec, target=earlier)
+                exp = expected_help(e_spec, f) if fail["kind"] == "help" else expected_kind(e_spec, f, fail["kind"])
+                if fail.get("got") == exp and exp != fail.get("exp"):
+                    return True
+        if earlier != cls["name"] and earlier in cls["mro"] and e.get("mro"):
+            # what the extractor answers once `earlier`'s cached record already carries its own bases' texts
+            alt = []
+            for n in cls["mro"]:
+                for k in (e["mro"] if n == earlier else [n]):
+                    if k not in alt:
+                        alt.append(k)
+            alt_spec = dict(spec, target=cls["name"], classes=[dict(c, mro=alt) if c["name"] == cls["name"] else c
+                                                              for c in spec["classes"]])
+            exp = expected_help(alt_spec, fail["field"]) if fail["kind"] == "help" else expected_kind(alt_spec, fail["field"], fail["kind"])
+            if fail.get("got") == exp and exp != fail.get("exp"):
+                return True
+    return False
+
+
+FINDINGS = {
+    "C19-classdoc-escape": _classdoc_escape_sig,
+    "C19-docstring-colon": _docstring_colon_sig,
+    "C19-multiline-header": _multiline_header_sig,
+    "C19-method-local": _method_local_sig,
+    "C19-diamond-history": _diamond_history_sig,
+}
 
 MANIFEST = {
-    "text": ("Proof on the layout grammar (full there; no open finding). Lean theorems over a line-scanner "
-             "model of docstring.py: for every source made of header lines and well-formed field blocks (comment lines, "
-             "blank lines, definition, inline comment, one-line or multi-line docstring in either quote style), the scan for "
-             "a field returns exactly the texts of that field's own block, whatever the other blocks contain and for names "
-             "that are prefixes of each other; a block without documentation yields no text; a comment on the class / decorator line "
-             "reaches no field; MRO accumulation takes each kind from the nearest class that has it, the class-docstring entry "
-             "also from subclasses that only document an inherited field; help= > docstring below > comment above > inline comment > class "
-             "docstring entry. The model is tied to the code by four correspondence ops on generated real modules "
-             "(get_attribute_docstring, argparse action help, the line classifiers, the layout rendering versus "
-             "inspect.getsource), and the property's own statement is evaluated on every real observation including the "
-             "--help text."),
+    "text": ("Proof on the layout grammar (partial: five open findings with witnesses and named exclusions). PROVED for all "
+             "inputs (Lean, line-scanner model of docstring.py): on every class source that splits into header lines and "
+             "well-formed field blocks the scan for a name returns exactly the documentation of the block of that name "
+             "(arbitrary inline text, punctuation in comments and docstrings, prefix-related names, comments on class / "
+             "decorator lines, '#' in string defaults) and nothing when there is no such block; over an MRO of such classes "
+             "each kind comes from the nearest class that provides it (class-docstring entries also from subclasses that only "
+             "document an inherited field); the help of a field is a function of its help=, and per class of the blocks named "
+             "like it and the entries for it; help= > docstring below > comment above > inline comment > class-docstring "
+             "entry; no documentation anywhere gives no help text; on linear chains the in-place merge into the lru_cache'd "
+             "record is invisible for every sequence of look-ups. SPECIFICATION ONLY (definitional, sampled by doc.help): "
+             "c19_precedence_custom/_meta. SAMPLED (correspondence ops on generated real modules + the property's own "
+             "statement on every observation, including the --help text and look-up histories): that real sources split as "
+             "the layout says (op doc.layout), inspect.getsource / docstring_parser / dataclasses behaviour, everything "
+             "outside Block.wf (exponent literals, backslash strings, lambda/dict defaults: answered unmodelled or not "
+             "generated), nested / tab-indented classes."),
     "note": ("Trusted: Lean kernel + standard axioms; inspect.getsource, docstring_parser, dataclasses (observed and passed to "
-             "the model as parameters); the harness. Modelled not verified: docstring.py:34-386, field_wrapper.py:888-905 on "
-             "ASCII sources. The tokenizer-based inline-comment extraction is modelled as 'first # outside a string literal' on "
-             "one-line string literals without escapes; other definition lines are answered `unmodelled` and counted."),
+             "the model as parameters); the harness. Modelled not verified: docstring.py:34-392, field_wrapper.py:888-905 on "
+             "ASCII sources. The tokenizer-based inline-comment extraction is modelled as 'first # outside a string literal'; "
+             "other definition lines are answered `unmodelled` and counted. Open findings: class docstring with an escape "
+             "sequence is not removed; `name: text` line inside a multi-line field docstring; comment inside a multi-line "
+             "class header; annotated local of a method; diamond hierarchies answer history-dependently."),
     "technique": "Lean 4 induction over source-line blocks + differential correspondence on generated modules",
     "design_ref": "DESIGN.md section 5, C19",
 }
